@@ -176,6 +176,18 @@ instance : LawfulFloatLike ERat where
     rename_i a b
     have := (Rat.add_le_add_left (c := a)).2 hy
     rwa [Rat.add_zero] at this
+  toInt64_nn x hx := by
+    rw [NN_iff] at hx
+    rcases hx with rfl | rfl | ⟨q, rfl, hq⟩
+    · right; rfl
+    · right; rfl
+    · show 0 ≤ ERat.toInt64 (fin q) ∨ ERat.toInt64 (fin q) = -9223372036854775808
+      simp only [ERat.toInt64]
+      split
+      · right; rfl
+      · left
+        have hn : 0 ≤ q.num := Rat.num_nonneg.2 hq
+        exact Int.tdiv_nonneg hn (Int.natCast_nonneg _)
   sub_sq_comm a b ha hb := by
     cases a <;> cases b <;> simp [FloatLike.finite, ERat.isNaN, ERat.isInf] at ha hb
     rename_i p q
